@@ -9,6 +9,10 @@
                                               Member re-added to every stashed group)
      purge_recycled                          (LastModifiedCid < cid - RECYCLEBIN_MAX_AGE -> to_tombstone(cid))
      purge_tombstones / be::reap_tombstones  (tombstone `at` < cid - CHANGELOG_MAX_AGE -> row removed)
+   The model follows /repo AFTER commit 76a0ae1 (memberof: reviving a group recomputes the
+   direct memberships of its members); the behaviour before it is kept only in the `_prefix`
+   definitions (do_revive_prefix, step_prefix, run_prefix) for Props.C26_prefix_refuted.
+   Scope: flat groups (memberof's transitive MemberOf propagation is not modelled).
    All times are nanoseconds (Duration of the Cid); windows R, C are case inputs read from the
    kanidm constants by the harness. *)
 From Coq Require Import List NArith Bool.
